@@ -134,10 +134,9 @@ func (nd *node) dirNames() []string {
 func (nd *node) remove() {
 	nd.children = nil
 
+	// The data of a file without link is still used by its open handles,
+	// it is released with the node itself.
 	nd.nlink--
-	if nd.nlink == 0 {
-		nd.data = nil
-	}
 }
 
 // setMode sets the permissions of the file node.
